@@ -18,6 +18,7 @@ pub struct SchedState {
     pub draws_seen: Vec<(i64, i64, i64)>,
     pub log_points: bool,
     pub log_internal: bool,
+    pub internal_events: u64,
 }
 
 #[derive(Clone, Copy, Debug)]
@@ -55,6 +56,8 @@ impl Sched {
         for (_, (_, tx)) in g.parked.drain() { let _ = tx.send(()); }
     }
     pub fn push_draw(&self, d: Draw) { self.0.lock().unwrap().draws.push_back(d); }
+    pub fn internal_events(&self) -> u64 { self.0.lock().unwrap().internal_events }
+    pub fn set_log_internal(&self, on: bool) { self.0.lock().unwrap().log_internal = on; }
     pub fn clear_draws(&self) { self.0.lock().unwrap().draws.clear(); }
 }
 
@@ -73,12 +76,23 @@ impl Controller for Sched {
         Box::pin(async move { let _ = rx.await; })
     }
     fn event(&self, task: Option<String>, kind: &'static str, fields: Vec<(&'static str, String)>) {
-        let g = self.0.lock().unwrap();
+        let mut g = self.0.lock().unwrap();
         if !g.log_internal { return; }
+        g.internal_events += 1;
         let mut m = serde_json::Map::new();
         m.insert("ev".into(), serde_json::json!(kind));
         m.insert("task".into(), serde_json::json!(task.unwrap_or_default()));
         for (k, v) in fields {
+            if k == "addr" {
+                // socket address -> ip cells + port (the trace specs compare integers)
+                if let Ok(sa) = v.parse::<std::net::SocketAddr>() {
+                    let ip: Vec<i64> = match sa.ip() { std::net::IpAddr::V4(a) => a.octets().iter().map(|b| *b as i64).collect(), std::net::IpAddr::V6(a) => a.octets().iter().map(|b| *b as i64).collect() };
+                    m.insert("ip".into(), serde_json::json!(ip));
+                    m.insert("port".into(), serde_json::json!(sa.port()));
+                    continue;
+                }
+            }
+            if k == "port" || k == "host" { continue; }
             let val = v.parse::<i64>().map(|n| serde_json::json!(n)).unwrap_or(serde_json::json!(v));
             m.insert(k.into(), val);
         }
